@@ -15,8 +15,8 @@ def summarize(r):
 
 def run(tier, seed):
     ctx = core.Ctx("C19", tier, seed, LEVEL)
-    nproc = 4 if tier == "quick" else 20
-    srcs = streams.exploration_sources(ctx, tier, seed, caps={"soup": 10000, "arms": 15000, "c15": 15000}, which=("soup", "arms", "c15", "flat", "repo"))
+    nproc = 3 if tier == "quick" else 20
+    srcs = streams.exploration_sources(ctx, tier, seed, caps={"soup": 6000, "arms": 10000, "c15": 8000}, which=("soup", "arms", "c15", "flat", "repo"))
     inp = [{"id": i, "src": s[2]} for i, s in enumerate(srcs)]
     runs = [[] for _ in inp]
     first = core.expand(inp, "syn1", repeat=2)                 # twice in one process
